@@ -19,14 +19,25 @@ Definition ordering_eqb (a b : ordering) : bool :=
   | _, _ => false
   end.
 
-(* one atomic operation found in the source by the translator *)
+(* the weakest of two orderings (what holds whichever of two source sites plays a role) *)
+Definition ord_meet (a b : ordering) : ordering :=
+  match is_acq a && is_acq b, is_rel a && is_rel b with
+  | true, true => match a, b with SeqCst, SeqCst => SeqCst | _, _ => AcqRel end
+  | true, false => Acquire
+  | false, true => Release
+  | false, false => Relaxed
+  end.
+Definition ord_meet_all (l : list ordering) : ordering :=
+  match l with [] => Relaxed | x :: r => fold_left ord_meet r x end.
+
+(* one atomic role of a protocol function, found in the source by the translator *)
 Record asite := mkSite {
-  s_fn : string;            (* enclosing function, qualified *)
-  s_idx : nat;              (* ordinal among the atomic operations of that function *)
+  s_fn : string;            (* entry function, qualified *)
+  s_idx : nat;              (* ordinal of the role among the atomic transitions of that function's canonical automaton *)
   s_field : string;         (* receiver field: "state" / "locked" *)
   s_op : string;            (* load / store / compare_exchange / ... *)
-  s_args : list string;     (* non-ordering operands as written *)
-  s_ord : ordering;         (* ordering (success ordering of a CAS) *)
+  s_args : list string;     (* non-ordering operands, in canonical form *)
+  s_ord : ordering;         (* ordering (success ordering of a CAS): the weakest among the source sites that play the role *)
   s_ord2 : option ordering  (* failure ordering of a CAS *)
 }.
 
